@@ -94,6 +94,7 @@ type c05Node struct {
 	logs  *observer.ObservedLogs
 	sink  *memSink
 	hookN *int
+	sampN *int // sampling-decision hook calls (sampler nodes)
 }
 
 type c05Builder struct {
@@ -148,11 +149,13 @@ func (n *c05Node) enabled(l zapcore.Level) bool {
 }
 
 // deliver adds the expected deliveries for level l and returns how many
-// destinations below n accepted the entry.
-func (n *c05Node) deliver(l zapcore.Level, leaves, hooks map[int]int) int {
+// destinations below n accepted the entry. reached says whether the entry is
+// offered to this node at all (the logger's cheap pre-check and every filter
+// above let it through); samp counts the expected sampling-decision hook calls.
+func (n *c05Node) deliver(l zapcore.Level, reached bool, leaves, hooks, samp map[int]int) int {
 	switch n.kind {
 	case "obs", "json":
-		if n.en.on(l) {
+		if reached && n.en.on(l) {
 			leaves[n.id]++
 			return 1
 		}
@@ -160,22 +163,27 @@ func (n *c05Node) deliver(l zapcore.Level, leaves, hooks map[int]int) int {
 	case "tee":
 		c := 0
 		for _, k := range n.kids {
-			c += k.deliver(l, leaves, hooks)
+			c += k.deliver(l, reached, leaves, hooks, samp)
 		}
 		return c
 	case "inc":
-		if !n.en.on(l) {
-			return 0
-		}
-		return n.kids[0].deliver(l, leaves, hooks)
+		return n.kids[0].deliver(l, reached && n.en.on(l), leaves, hooks, samp)
 	case "hook":
-		c := n.kids[0].deliver(l, leaves, hooks)
+		c := n.kids[0].deliver(l, reached, leaves, hooks, samp)
 		if c > 0 {
 			hooks[n.id]++
 		}
 		return c
+	case "sampler":
+		// a sampler decides (and reports its decision) only for entries at levels
+		// its wrapped core enables; out-of-range levels pass undecided
+		on := reached && n.kids[0].enabled(l)
+		if on && l >= zapcore.DebugLevel && l <= zapcore.FatalLevel {
+			samp[n.id]++
+		}
+		return n.kids[0].deliver(l, on, leaves, hooks, samp)
 	default:
-		return n.kids[0].deliver(l, leaves, hooks)
+		return n.kids[0].deliver(l, reached, leaves, hooks, samp)
 	}
 }
 
@@ -220,7 +228,9 @@ func (n *c05Node) build(t *rapid.T) zapcore.Core {
 		n.hookN = cnt
 		return zapcore.RegisterHooks(child, func(zapcore.Entry) error { *cnt++; return nil })
 	case "sampler":
-		return zapcore.NewSamplerWithOptions(n.kids[0].build(t), time.Hour, 1<<30, 0)
+		cnt := new(int)
+		n.sampN = cnt
+		return zapcore.NewSamplerWithOptions(n.kids[0].build(t), time.Hour, 1<<30, 0, zapcore.SamplerHook(func(zapcore.Entry, zapcore.SamplingDecision) { *cnt++ }))
 	case "lazy":
 		return zapcore.NewLazyWith(n.kids[0].build(t), []zapcore.Field{zap.Int("lazy", n.id)})
 	default:
@@ -356,14 +366,16 @@ func propC05(t *rapid.T) {
 		front := rapid.SampledFrom(fronts).Draw(t, "frontEnd")
 		nLogs++
 		msg := fmt.Sprintf("m%d", nLogs)
-		wl, wh := map[int]int{}, map[int]int{}
-		delivered := lgr.root.deliver(lv, wl, wh)
+		wl, wh, ws := map[int]int{}, map[int]int{}, map[int]int{}
+		// every front end applies the cheap level pre-check below DPanic
+		reachedRoot := lv >= zapcore.DPanicLevel || lgr.root.enabled(lv)
+		delivered := lgr.root.deliver(lv, reachedRoot, wl, wh, ws)
 		// classification
 		lgr.root.walk(func(n *c05Node) {
 			if n.kind == "tee" && len(n.kids) >= 2 {
 				on, off := 0, 0
 				for _, k := range n.kids {
-					if k.deliver(lv, map[int]int{}, map[int]int{}) > 0 {
+					if k.deliver(lv, true, map[int]int{}, map[int]int{}, map[int]int{}) > 0 {
 						on++
 					} else {
 						off++
@@ -388,6 +400,8 @@ func propC05(t *rapid.T) {
 				before[n.id] = len(n.sink.writes)
 			case n.hookN != nil:
 				before[n.id] = *n.hookN
+			case n.sampN != nil:
+				before[n.id] = *n.sampN
 			}
 		})
 		marsh := 0
@@ -482,6 +496,10 @@ func propC05(t *rapid.T) {
 			case n.hookN != nil:
 				if got := *n.hookN - before[n.id]; got != wh[n.id] {
 					fail("hook #%d fired %d times, model says %d (exactly once per entry its wrapped core accepts, never otherwise)", n.id, got, wh[n.id])
+				}
+			case n.sampN != nil:
+				if got := *n.sampN - before[n.id]; got != ws[n.id] {
+					fail("sampler #%d reported %d sampling decisions, model says %d (a disabled entry causes no hook call and consumes no budget)", n.id, got, ws[n.id])
 				}
 			}
 		})
